@@ -62,6 +62,8 @@ func c18History(r *rand.Rand, n int) Case {
 	c18Tags := c18Tags
 	if r.Intn(3) == 0 {
 		c18Tags = []string{"prod", "preprod", "pro"}
+	} else if r.Intn(4) == 0 { // a tag is a name, not a pattern
+		c18Tags = []string{"items[0]", "items0", "[draft"}
 	}
 	// the document OBJECT currently stored under a name (a caller may re-register the very object, e.g. to re-tag it)
 	objs := map[string]dom.ContainerBuilder{}
